@@ -6,6 +6,8 @@ Part S (synthetic): all PatchTree forests <= N nodes, depth <= 4, distinct sibli
         line by line; the session wrapper equals a table; flattening vendors: cmd_paths == reference flattening.
 Part R (real): PatchTrees produced by the real make_patch over grammar rulebooks (incl. undo_redo, %force_commit).
 Part K (corpus): the shipped (before, after) corpus with the shipped rulebooks: displayed patch == command stream.
+Part U (corpus unions): the same as K and J for the union of two corpus samples of one vendor (all pairs; the two patches
+        then meet in one command stream, e.g. Aruba commands with different session wrappers).
 Part J (job): the production caller annet.api.CliDeployerJob.parse_result on every corpus sample, with and without
         --dont-commit and --acl-safe: the commands it lists for confirmation (cmd_lines) and the commands it queues
         (deploy_cmds[device]) are those of the pipeline the other parts judge (_diff_and_patch -> cmd_paths ->
@@ -14,6 +16,9 @@ Part E (end to end): for every corpus sample the production workers themselves, 
         them (mc/e2e.py: stub Loader, real generators yielding the sample's new tree split over an unsafe and a safe
         generator, the old tree as <host>.cfg): the rows `annet patch` prints are the commands the deploy job lists
         and queues, with and without --acl-safe / --dont-commit.
+Part W (wrappers): a deploy rulebook that gives some commands another %apply_logic (aruba.ap_env.apply next to the default
+        common.apply): for ALL sequences of <= 4 distinct commands, the commands appear in the queued list exactly once
+        and in the order of the patch (wrapper commands aside), each bracketed by the wrapper of its own logic.
 Part D (deploy parameters): generated deploy rulebooks with disjoint sibling rules: (timeout, questions) of every
         Command == those of the unique rule chain matching its path, else the defaults.
 """
@@ -118,7 +123,7 @@ def bound_text(tier):
     n = 4 if tier == "quick" else 5
     return ("S: forests <= %d nodes, depth <= 4, %d block vendors + %d flattening vendors; R: grammar families F1-F5 + "
             "force_commit family with universes <= 16; D: deploy grammar (<=3 rules, depth <=2) x all trees <= 3 nodes; "
-            "K: 192 corpus samples; J: the same through CliDeployerJob.parse_result x {acl_safe} x {dont_commit}; "
+            "K: 192 corpus samples; U: unions of two samples of one vendor (quick: all Aruba pairs, <= 400 per other vendor; thorough: all); J: the same through CliDeployerJob.parse_result x {acl_safe} x {dont_commit}; "
             "E: the same end to end (annet patch worker vs deploy job fed by annet.gen.old_new)"
             % (n, len(BLOCK_VENDORS), len(FLAT_VENDORS)))
 
@@ -372,6 +377,49 @@ def check_deploy_params(book, forest, report, stats=None):
 
 
 # ---- part R: real patches --------------------------------------------------------------------------
+W_COMMANDS = ["a 1", "a 2", "b 1", "b 2", "c 1"]
+W_RULEBOOKS = [
+    "a ~ %apply_logic=aruba.ap_env.apply\n",
+    "b ~ %apply_logic=aruba.ap_env.apply\nc ~ %timeout=50\n",
+    "~ %apply_logic=aruba.ap_env.apply\n",
+]
+
+
+def check_wrappers(rb_text, seq, flags, report):
+    """part W: commands keep their order through apply_deploy_rulebook whatever wrappers their rules select"""
+    from collections import OrderedDict as odict
+    from annet import deploy
+    from annet.rulebook.deploying import compile_deploying_text
+    hw = env.hw("aruba")
+    compiled = compile_deploying_text(rb_text, "aruba")
+    paths = odict(((c,), {}) for c in seq)
+    case = {"part": "W", "deploy": rb_text, "commands": list(seq), "flags": list(flags)}
+    saved = deploy.get_rulebook
+    deploy.get_rulebook = lambda _hw: {"deploying": compiled}
+    try:
+        cl = list(deploy.apply_deploy_rulebook(hw, paths, do_finalize=flags[1], do_commit=flags[0]))
+    except Exception as e:  # noqa
+        report({"kind": "apply-exception", "part": "W", "exc": type(e).__name__}, case, repr(e)[:300])
+        return 0
+    finally:
+        deploy.get_rulebook = saved
+    body = [c.cmd for c in cl if c.cmd in W_COMMANDS]
+    if body != list(seq):
+        report({"kind": "stream-order-differs-from-patch", "part": "W",
+                "how": "reordered" if sorted(body) == sorted(seq) else "lost-or-duplicated"}, case,
+               "patch order %r, queued %r (full list %r)" % (list(seq), body, [c.cmd for c in cl]))
+    # every maximal run of commands of one logic is bracketed on its own: the number of 'conf t' equals the number of
+    # runs of default-logic commands
+    import re as _re
+    ap = [bool(_re.match(r"^(%s)" % "|".join(_re.escape(ln.split()[0]) for ln in rb_text.split("\n") if "ap_env" in ln).replace("~", ".*"), c))
+          if any("ap_env" in ln for ln in rb_text.split("\n")) else False for c in seq]
+    runs = sum(1 for i, x in enumerate(ap) if not x and (i == 0 or ap[i - 1]))
+    if [c.cmd for c in cl].count("conf t") != runs:
+        report({"kind": "wrapper-count", "part": "W"}, case, "default-logic runs=%d, 'conf t' x%d: %r"
+               % (runs, [c.cmd for c in cl].count("conf t"), [c.cmd for c in cl]))
+    return len(set(ap))
+
+
 def real_families():
     from mc.ref.rb import Rule
     fams = [f for f in rbgen.families("quick") if f[0][:2] in ("F1", "F2", "F3", "F4", "F5")]
@@ -426,6 +474,10 @@ def blocks(tier, seed):
         out.append({"part": "J", "i": i})
     for i in range(16):
         out.append({"part": "E", "i": i, "of": 16})
+    for i in range(16):
+        out.append({"part": "U", "i": i, "of": 16})
+    for i in range(len(W_RULEBOOKS)):
+        out.append({"part": "W", "i": i})
     return out
 
 
@@ -536,6 +588,24 @@ def check_job(sample, acl_safe, dont_commit, report):
     if not job.has_diff():
         report({"kind": "job-has-diff-flag"}, case, "")
     return len(list(paths))
+
+
+def union_samples(tier):
+    """pairs of corpus samples of one vendor key, united row by row (same top-level row: children united)"""
+    from mc import corpus, e2e
+    S = corpus.samples()
+    by = {}
+    for s_ in S:
+        by.setdefault((s_["vendor_key"], s_["model"]), []).append(s_)
+    out = []
+    for (vk, model), lst in sorted(by.items()):
+        pairs = [(a, b) for i, a in enumerate(lst) for b in lst[i + 1:]]
+        if tier == "quick" and vk != "aruba" and len(pairs) > 400:
+            pairs = pairs[::max(1, len(pairs) // 400)]
+        for a, b in pairs:
+            out.append({"name": "%s + %s" % (a["name"], b["name"]), "vendor_key": vk, "model": model,
+                        "old": e2e.union_forest(a["old"], b["old"]), "new": e2e.union_forest(a["new"], b["new"]), "patch": None})
+    return out
 
 
 def split_new(new):
@@ -660,6 +730,35 @@ def run_block(block, ctx):
                         if n > 1:
                             ctx.nontrivial += 1
                         ctx.outcomes["R:cmds=%s" % (n if n < 4 else "4+")] += 1
+    elif block["part"] == "W":
+        rb_text = W_RULEBOOKS[block["i"]]
+        for n in range(1, 5):
+            for seq in itertools.permutations(W_COMMANDS, n):
+                for flags in ALL_FLAGS:
+                    if ctx.expired():
+                        return
+                    k = check_wrappers(rb_text, seq, flags, ctx.violation)
+                    ctx.evals += 1
+                    ctx.states += 1
+                    ctx.nontrivial += int(k > 1)
+                    ctx.outcomes["W:%s" % ("two-wrappers" if k > 1 else "one-wrapper")] += 1
+        ctx.sample({"part": "W", "deploy_rulebook": rb_text, "commands": W_COMMANDS})
+    elif block["part"] == "U":
+        U = union_samples(ctx.tier)
+        for si in range(block["i"], len(U), block["of"]):
+            if ctx.expired():
+                return
+            smp = U[si]
+            try:
+                n = check_corpus(smp, lambda sig, c, d="": ctx.violation(sig, dict(c, part="U"), d))
+            except Exception as e:  # noqa  (two samples may contradict each other for a vendor logic: an outcome)
+                ctx.outcomes["U:exception:%s" % type(e).__name__] += 1
+                continue
+            check_job(smp, 0, 0, lambda sig, c, d="": ctx.violation(sig, dict(c, part="U"), d))
+            ctx.evals += 3
+            ctx.states += 1
+            ctx.nontrivial += int(n > 1)
+            ctx.outcomes["U:cmds=%s" % (n if n < 4 else "4+")] += 1
     elif block["part"] == "E":
         from mc import corpus
         S = corpus.samples()
@@ -732,6 +831,12 @@ def replay(case):
         out.append((sig, d))
     if case["part"] == "S":
         check_tree(case["vendor"], case["model"], _tuplify(case["forest"]), [tuple(f) for f in case["flags"]], rep)
+    elif case["part"] == "W":
+        check_wrappers(case["deploy"], tuple(case["commands"]), tuple(case["flags"]), rep)
+    elif case["part"] == "U":
+        smp = next(x for t in ("thorough",) for x in union_samples(t) if x["name"] == case["sample"])
+        check_corpus(smp, rep)
+        check_job(smp, 0, 0, rep)
     elif case["part"] == "E":
         from mc import corpus
         check_e2e(next(x for x in corpus.samples() if x["name"] == case["sample"]), case["acl_safe"], case["dont_commit"], rep)
